@@ -497,7 +497,9 @@ Proof.
   assert (Hself : forall c, str_eqb c c0 = true ->
             key_col t c0 = (if mem_str c (p ++ [c0]) then key_col t c else col_of t c)).
   { intros c Ec. rewrite mem_str_app1, Ec, orb_true_r. apply str_eqb_eq in Ec. subst c. reflexivity. }
-  destruct (dtype_of (col_of t c0)) eqn:Ed; try discriminate; inversion H as [Hd]; clear H Hd.
+  destruct (dtype_of (col_of t c0)) eqn:Ed;
+    try (destruct (Nat.leb 2 (nrows t) && incomparable_col (col_of t c0)); discriminate);
+    inversion H as [Hd]; clear H Hd.
   - (* DInt: negated in place *)
     unfold enumerate, kcols_of. rewrite map_length.
     pose proof (enum_map_index (fun c => if mem_str c p then key_col t c else col_of t c)
@@ -668,6 +670,12 @@ Qed.
 
 (* ------------------------------------------------------------------ the theorem *)
 
+Lemma object_key_error_not_ok t k t' : object_key_error t k <> Ok t'.
+Proof.
+  unfold object_key_error. destruct k as [|k0 k]; [discriminate|].
+  destruct (Nat.leb 2 (nrows t) && negb (sortable_dtype k0) && incomparable_col k0); discriminate.
+Qed.
+
 (* NB a reversed float column must hold normalised decimals ([dec_normal_col],
    what the harness passes): the model's structural tie-break between equal
    values with different exponents is not reversed by negation.
@@ -686,7 +694,7 @@ Proof.
   unfold sorted in H. destruct (sort_columns t columns reverse) as [cs rev] eqn:Hsc. cbn [fst snd].
   intros Hnr Hdn.
   destruct (sort_keys t cs rev) as [kc|e] eqn:Hk; cbn [bind] in H; [|discriminate].
-  destruct (negb (forallb sortable_dtype kc)); [discriminate|].
+  destruct (negb (forallb sortable_dtype kc)); [exfalso; apply (object_key_error_not_ok _ _ _ H)|].
   destruct (sort_keys_inv t cs rev kc Hwf Hnr Hk) as [Hin [Hnd Hkc]].
   set (keys := map (row_at kc) (seq 0 (nrows t))) in H.
   assert (Hkl : length keys = nrows t).
@@ -759,6 +767,48 @@ Proof.
   - intros r. apply spec_sorted_stable.
 Qed.
 
+
+(* ------------------------------------------------------------------ object-dtype keys *)
+
+(* no reverse: an object-dtype FIRST key whose values Python cannot compare raises TypeError *)
+Theorem sorted_object_first_key_raises : forall t columns reverse (c0 : str) rest,
+  wf t ->
+  fst (sort_columns t columns reverse) = c0 :: rest ->
+  snd (sort_columns t columns reverse) = [] ->
+  nodup_strs (c0 :: rest) = true ->
+  incl (c0 :: rest) (hdr t) ->
+  (2 <= nrows t)%nat ->
+  dtype_of (col_of t c0) = DObj ->
+  incomparable_col (col_of t c0) = true ->
+  sorted t columns reverse = Er E_Type.
+Proof.
+  intros t columns reverse c0 rest Hwf Hcs Hrev Hnd Hincl Hn Hd Hinc.
+  unfold sorted. destruct (sort_columns t columns reverse) as [cs rev]. cbn [fst snd] in Hcs, Hrev.
+  subst cs rev. unfold sort_keys. rewrite Hnd. cbn [negb fold_left].
+  rewrite (get_cols_ok t (c0 :: rest) Hwf Hincl). cbn [bind map forallb].
+  assert (Hs : sortable_dtype (col_of t c0) = false) by (unfold sortable_dtype; rewrite Hd; reflexivity).
+  rewrite Hs. cbn [andb negb]. unfold object_key_error. rewrite Hs, Hinc.
+  apply Nat.leb_le in Hn. rewrite Hn. reflexivity.
+Qed.
+
+(* key column k = None, 1, 2 : TypeError, also when reversed *)
+Example sorted_object_key_type_error :
+  sorted (mkT [[107]] [[CN; CI 1; CI 2]] 3) (Some [[107]]) None = Er E_Type.
+Proof. vm_compute. reflexivity. Qed.
+
+Example sorted_object_reverse_key_type_error :
+  sorted (mkT [[107]] [[CN; CI 1; CI 2]] 3) None (Some [[107]]) = Er E_Type.
+Proof. vm_compute. reflexivity. Qed.
+
+(* a single row is never compared *)
+Example sorted_object_key_one_row :
+  sorted (mkT [[107]] [[CN]] 1) (Some [[107]]) None = Er E_NotModelled.
+Proof. vm_compute. reflexivity. Qed.
+
+(* a number and a string *)
+Example sorted_object_key_mixed :
+  sorted (mkT [[107]] [[CI 1; CS [97]]] 2) (Some [[107]]) None = Er E_Type.
+Proof. vm_compute. reflexivity. Qed.
 
 (* ------------------------------------------------------------------ examples *)
 
